@@ -1,7 +1,8 @@
 (* C14 Lexing depends on the characters only, not on how they are supplied. *)
 From LexVerif Require Import Base CharClass RangeMap Regex Spec SpecExec LexSpec Nfa Dfa NfaToDfa NfaSem Codegen
      Runtime ScanIface RulesetSem Driver SpecDef ClassAlgProofs RuntimeProofs RuntimeLemmas ScanOkProofs
-     RulesetSemProofs LexSpecProofs LexSpecFacts SpecInvariants EndToEnd EndToEndModel Instance Harness.
+     RulesetSemProofs LexSpecProofs LexSpecFacts SpecInvariants EndToEnd EndToEndModel Instance Harness
+     GenCode GenCodeProofs GenCodeChecks.
 From LexVerif.Gen Require Import GenTables GenConsts.
 
 Theorem c14_constructors_differ_only_in_input : forall (U : Type) (input : list N) (u : U),
@@ -104,6 +105,47 @@ Theorem c14_ruleset_sem :
   dfa_closed n d m -> 0 < length d -> dfa_shape_ok d -> ruleset_sem benv crules cidx d.
 Proof. exact ruleset_sem_of_closed_wf_crule. Qed.
 
+(* ------------------------------------------------------------------------------------------
+   The generated code itself. GenCode.v describes the Rust code the macro emits as syntax trees
+   (gen_arms: the arms of `match self.0.__state`, nested for inlined states) and says what running
+   them does (gnext: one call of the generated next()). harness/gencode.py translates the token stream
+   of the REAL macro into these trees on every run and compares them with gen_arms. Running the trees
+   is running the interpreter of Runtime.v, call by call, with the same fuel; hence, for every compiled
+   well-formed definition, the generated code produces the stream of the reference semantics. *)
+Theorem c14_generated_next :
+  forall (width : N -> N) (tab_width : N) (T E U : Type) (prog : program) (actions : nat -> action T E U)
+         (arms : list (option nat * gcode)) (fuel : positive) (l : lexer U) (o : outcome T E) (l' : lexer U),
+  chars_nodup prog ->
+  gen_arms prog = Ok arms ->
+  next width tab_width T E U prog actions fuel l = (o, l') ->
+  o <> OPanic T E TagOutOfFuel ->
+  gnext width tab_width T E U prog actions fuel arms l = (o, l').
+Proof. exact gnext_correct. Qed.
+
+Theorem c14_generated_code_stream :
+  forall benv mg (width : N -> N) tab_width (T E U : Type) (d : def) c rss (actions : nat -> action T E U) arms,
+  benv_wf benv ->
+  compile benv mg d = Ok c ->
+  def_rulesets d = Ok rss ->
+  wf_def benv d = true ->
+  def_chars_ok benv rss ->
+  acts_distinct d ->
+  (forall a v u n, a_switch (actions a v u) = Some n -> n < length (p_switch (c_program c))) ->
+  gen_arms (c_program c) = Ok arms ->
+  forall whole u with_str,
+    Forall (fun ch => is_scalar ch = true) whole ->
+    (with_str = false -> RuntimeProofs.text_blind T E U actions) ->
+  forall n fuel, enough_fuel U fuel (lexer_new U whole u with_str) ->
+  exists r, spec_run benv width tab_width T E U rss actions n (s_init U whole u) r /\
+            grun_lexer width tab_width T E U (c_program c) actions arms n fuel (lexer_new U whole u with_str)
+              = map (outcome_of T E) r.
+Proof. exact generated_code_correct_model. Qed.
+
+(* the side condition of c14_generated_next is decided by a boolean the check evaluates on the automata
+   the real macro dumped *)
+Theorem c14_generated_code_side_condition : forall p, chars_nodup_b p = true -> chars_nodup p.
+Proof. exact chars_nodup_b_sound. Qed.
+
 Print Assumptions c14_constructors_differ_only_in_input.
 Print Assumptions c14_same_stream.
 Print Assumptions c14_step_independent.
@@ -111,3 +153,6 @@ Print Assumptions c14_next_simulates.
 Print Assumptions c14_stream.
 Print Assumptions c14_compiled_scan_ok.
 Print Assumptions c14_ruleset_sem.
+Print Assumptions c14_generated_next.
+Print Assumptions c14_generated_code_stream.
+Print Assumptions c14_generated_code_side_condition.
